@@ -1,14 +1,15 @@
 ------------------------------ MODULE NcReqScn ------------------------------
 (* Scenario generator for C03: a session = version x self-closing x header flags and a sequence of operations with
    argument kinds.  The harness concretises the kinds (ASCII, multi-byte, long, attributes, namespaces, empty elements,
-   comment / CDATA / processing instruction before a closing tag) and records what was transmitted for NcRequestTrace. *)
+   comment / CDATA / processing instruction before a closing tag, an element with attributes that is written self-closed
+   inside a parent of the same name) and records what was transmitted for NcRequestTrace. *)
 EXTENDS Naturals, Sequences, ScnRand, TLC, Json
 CONSTANT Count
 VARIABLE n
 Ops == << "get", "get-filter", "get-xpath", "get-config", "get-config-filter", "get-config-defaults", "edit-config", "copy-config",
           "delete-config", "lock", "unlock", "validate", "commit", "commit-confirmed", "commit-persist", "discard", "rpc",
           "commit-persist-id", "commit-all", "commit-timeout" >>       \* every commit parameter alone and all together
-ArgKinds == << "ascii", "multibyte", "long", "attrs", "namespaces", "empty-elements", "comment-before-close", "cdata", "pi", "whitespace-only", "mixed", "percent", "prefixed-empty" >>
+ArgKinds == << "ascii", "multibyte", "long", "attrs", "namespaces", "empty-elements", "comment-before-close", "cdata", "pi", "whitespace-only", "mixed", "percent", "prefixed-empty", "same-name-nested" >>
 Stores == << "running", "candidate", "startup" >>
 Scn(m) == LET k == 2 + Below(5, m, 1) IN
   \* prev = "mismatch": the user requires `version`, the peer offers only the other one: no session, nothing framed at all
